@@ -16,6 +16,8 @@ use std::sync::atomic::{AtomicU64, Ordering};
 
 const INT_PROBES: [i32; 9] = [-i32::MAX, -1_000_000, -1, 0, 1, 1000, 1_000_000, 1_000_000_000, i32::MAX];
 const INDEX_PROBES: [(usize, usize); 7] = [(0, 100_000), (0, 3_000_000), (0, 100_000_000), (0, i32::MAX as usize), (0, usize::MAX / 2), (3_000_000, 6_000_000), (i32::MAX as usize - 1, i32::MAX as usize)];
+const IV_PROBES: [&[i32]; 6] = [&[1, 40_000_000], &[0, i32::MAX], &[i32::MIN, i32::MAX], &[i32::MAX], &[-40_000_000, 3, 40_000_000], &[1_000_000_000, 1_000_000_001]];
+const FV_PROBES: [&[f32]; 4] = [&[1.0, 4.0e7], &[-1.0e30, 1.0e30], &[f32::MAX], &[0.0, f32::INFINITY]];
 const FLOAT_PROBES: [f32; 6] = [1e30, -1e30, f32::INFINITY, f32::NEG_INFINITY, f32::NAN, 0.5];
 
 fn iclass(v: i32) -> &'static str {
@@ -132,6 +134,17 @@ fn steps(ctx: &mut Ctx) {
                 probes.push((2, 0, v));
             }
         }
+        // vector operands: the magnitude (and the SPREAD) of the elements is operand magnitude too
+        if depth_of(St::IV) > 0 {
+            for v in 0..IV_PROBES.len() {
+                probes.push((3, 0, v));
+            }
+        }
+        if depth_of(St::FV) > 0 {
+            for v in 0..FV_PROBES.len() {
+                probes.push((4, 0, v));
+            }
+        }
         for (kind, pos, vi) in probes {
             let isf = kind == 1;
             for pattern in 0..3 {
@@ -158,7 +171,13 @@ fn steps(ctx: &mut Ctx) {
                     s.n.insert(0, String::new());
                     s.g.insert(0, SGraph::default());
                 }
-                let (cls, shown) = if kind == 2 {
+                let (cls, shown) = if kind == 3 {
+                    s.iv[0] = IV_PROBES[vi].to_vec();
+                    (format!("iv0:{}", if IV_PROBES[vi].len() > 1 { "spread" } else { "huge" }), format!("{:?}", IV_PROBES[vi]))
+                } else if kind == 4 {
+                    s.fv[0] = FV_PROBES[vi].iter().map(|f| fb(*f)).collect();
+                    (format!("fv0:{}", if FV_PROBES[vi].len() > 1 { "spread" } else { "huge" }), format!("{:?}", FV_PROBES[vi]))
+                } else if kind == 2 {
                     s.x[0] = INDEX_PROBES[vi];
                     (format!("x0:{}", if INDEX_PROBES[vi].1 > i32::MAX as usize { "beyond-i32" } else { "positive" }), format!("{:?}", INDEX_PROBES[vi]))
                 } else if isf {
